@@ -499,7 +499,8 @@ def mk_np():
                 return conc(rows, kind_char(dt))
             raise Raised('ValueError')
         if isinstance(x, Obj) and 'ndarray' in x.types and '_data' not in x.attrs and all(kk in ('dtype', 'copy') for kk in k) and len(a) == 1 and k.get('copy', True) is True:
-            return mk_values('copy(%s)' % x.name if k.get('dtype') is None else 'copy(%s.astype(%s))' % (x.name, render(k['dtype'])), x.attrs['shape'])
+            # (a copy: another object with the same content - rendered like the original, the values are what the outcome is about)
+            return mk_values(x.name if k.get('dtype') is None else '%s.astype(%s)' % (x.name, render(k['dtype'])), x.attrs['shape'])
         return asarray(itp, o, a, dict((kk, vv) for kk, vv in k.items() if kk != 'copy' or vv is not True))
     np.methods['array'] = array
     np.methods['dtype'] = lambda itp, o, a, k: a[0] if isinstance(a[0], TypeV) else Sym('call', 'np.dtype', tuple(a), dict(k))
